@@ -15,6 +15,12 @@ claims = {
  "C05": ("proof", "RTT = clock at acceptance minus the stamp recorded for the matched probe, non-negative under a monotone ghost clock, stamps never belong to another probe (identifier round trip), first accepted reply kept by both engines (serial: two-state step clause; parallel: writeProbe rule), ms conversion over reals. The 'within one poll interval' clause is not decided.", "§6 C05"),
  "C07": ("proof", "writeProbe's postcondition is the two-rule transition function of the merge relative to the state at lock acquisition; the monitor invariant is assumed at Lock and proved at Unlock, hence holds under every interleaving; receiver forwards every validated reply; sender's frame excludes the table.", "§6 C07"),
  "C09": ("proof", "No-panic obligations on every index/slice/nil/assert/division of the receive path (frame parser, IPv4 decoder from gopacket source, drivers, engines) for arbitrary bytes, and error classification: every error out of the receive path is retryable except the SACK no-SACK-block case.", "§6 C09"),
+ "C06": ("proof", "Probe emission: per driver, SendProbe's postcondition pins what is handed to the serializer (TTL/hop-limit field = probed TTL, protocol, ports, flags, per-probe identifier scheme, FixLengths and ComputeChecksums set, pseudo-header registered), stores the probe under that identifier once (duplicates refused) and writes exactly once; identifier injectivity lemmas; both engines emit TTLs in increasing order from the first TTL, at most once each, spaced by SendDelay on the ghost clock (sender closure exclusive writer, transferred at the join). Checksum/length arithmetic (gopacket) and 'none after the destination was seen' in the parallel engine are not decided.", "§6 C06"),
+ "C11": ("proof", "Allocator contracts (AllocPacketID, nextEchoID) with the disjointness lemma for identifier windows while fewer than 65536 identifiers are live, and per-protocol isolation lemmas proved over the same specification functions C01 uses: a packet genuine for two runs forces them to share their identity (echo id / flow / 4-tuple / ISN window). With C01 soundness this gives isolation for every shared-wire interleaving. Atomics are trusted linearizable; SACK relaxed mode assumes kernel ISNs of concurrent connections differ by more than 255.", "§6 C11"),
+ "C12": ("proof", "One bit-vector lemma per installed cBPF program, read mechanically from the source: for all frames, all frame lengths and all address/port configurations the program accepts iff the reference predicate transcribed from the statement holds (TCP tuple, SYN-ACK, ICMP, drop-all); filter selection and the non-IPv4 error path as ordinary contracts. 'Filter never hides a matchable reply' follows by composing these with the C01 soundness clauses under the assumed decoder contract; that composition is argued in DESIGN.md, not machine-checked.", "§6 C12"),
+ "C16": ("proof", "Every relation of the statement except JSON round-trip as postconditions of normalize* / calculateJitter over real arithmetic, for all sizes (loop invariants). The bound jitter <= max-min is proved in universally quantified ghost form (instantiation step by hand); float rounding, identifier freshness and JSON encoding are not decided.", "§6 C16"),
+ "C19": ("proof", "TTL bounds outside 1..255 and inverted bounds rejected (after the fix), port range, protocol and TCP method dispatch, HTTP parameter parsing verbatim with exact defaults, engines cover exactly first..last TTL, SACK table sized for the extreme 255, no-panic obligations along the chain. DNS resolution of non-literal targets is external.", "§6 C19"),
+ "C20": ("proof", "performTCPFallback with the three implementations as abstract function values and call counters: which are called, how often, whose result is returned, that a non-capability SACK failure is returned wrapped and never masked; end-to-end probes force SYN; the only non-retryable receive error of the SACK driver is NotSupportedError for an ACK without SACK blocks on the probed connection. Entry-point provenance of NotSupportedError (dial / handshake) is not yet under contract.", "§6 C20"),
  "C17": ("proof", "RemovePrivateHops postconditions over the whole document against an independent range predicate, with net.IP.IsPrivate / To4 / isZeros executed from the toolchain's source; flag plumbing in the HTTP parameter parser.", "§6 C17"),
 }
 
@@ -22,7 +28,7 @@ not_applicable = {
  "C13": "statement is about what Linux kernel routers, sockets and BPF attach do on a real path; no pre/postcondition on Go source can decide it, and the syscall layer is exactly what the library specifications assume",
 }
 
-pending = ["C06","C08","C10","C11","C12","C14","C15","C16","C18","C19","C20"]
+pending = ["C08","C10","C14","C15","C18"]
 
 def main():
     checks=[]
